@@ -177,7 +177,6 @@ def c_rule_occurrences(ctx, w):
 
 def _file_counts(ctx, w, fmt):
     go = ctx.mod("grammaroutput")
-    ga = ctx.mod("grammaranalysis")
     pg, g, lex = _produce(ctx, w)
     want = L.flat(pg)
     if fmt == "lopar" and not all(len(l) == 1 for (_, l) in want):
@@ -195,7 +194,11 @@ def _file_counts(ctx, w, fmt):
                     k = (f[0],) + tuple(sorted(f[1:]))
                     out[k] = out.get(k, 0) + c
                 return out
-            want = bag({f: c for (f, l), c in want.items()})
+            want_bag = {}
+            for (f, l), c in want.items():      # two linearizations of one func are two rules
+                k = (f[0],) + tuple(sorted(f[1:]))
+                want_bag[k] = want_bag.get(k, 0) + c
+            want = want_bag
             got = bag(got)
         else:
             with open(dest + "." + fmt, encoding="utf-8") as fh:
